@@ -181,6 +181,16 @@ func runC12(c *Ctx) {
 		for g := range appended {
 			gs = append(gs, g)
 		}
+		// the package's other byte-slice variables are salts nothing is appended to: nothing is ever written behind them
+		for _, m := range sp.Members {
+			if g, ok := m.(*ssa.Global); ok {
+				if sl, isSl := deref(g.Type()).Underlying().(*types.Slice); isSl && types.Identical(sl.Elem(), types.Typ[types.Byte]) {
+					if _, app := appended[g]; !app {
+						c.OK("C12.D2-shared-salt", c.short(g.String())+" › appended to without spare capacity", g.Pos(), "the shared salt is never the first argument of an append: no call can write into memory it shares")
+					}
+				}
+			}
+		}
 		sort.Slice(gs, func(i, j int) bool { return gs[i].Name() < gs[j].Name() })
 		for _, g := range gs {
 			why := ""
@@ -263,6 +273,11 @@ func runC12(c *Ctx) {
 					c.RoleCall("dhash.multi", Any(), Somewhere(pp)),
 				)
 				_, okKD = Match(whole, x)
+				if ps := sha256Pieces(c, x); !okKD && len(ps) == 2 {
+					_, p0 := Match(Op("global", "dhash.deriveKeyPrefix"), ps[0])
+					_, p1 := Match(pp, ps[1])
+					okKD = p0 && p1
+				}
 			}
 		}
 		c.Check(okKD, "C12.D4-directions-agree", kd.Name+" › hashes the whole passphrase", kd.SSA.Pos(), "key = SHA-256(key prefix ‖ entire passphrase)", "key derivation does not hash (prefix ‖ the whole passphrase): distinct passphrases can derive the same key")
@@ -315,6 +330,35 @@ func firstRet(c *Ctx, f *Fn, i int) *X {
 }
 
 // variadicElems returns the values stored into the backing array of a variadic argument slice.
+// sha256Pieces lists, in order, the byte strings a SHA-256 helper call of
+// package dhash hashes: SHA256(append(a, b...), dest) and
+// sha256Multiple(dest, a, b) both give [a, b]. nil if x is neither.
+func sha256Pieces(c *Ctx, x *X) []*X {
+	x = strip(x)
+	if b, ok := Match(Call("dhash.SHA256", Bind("in")), x); ok {
+		var flat func(y *X) []*X
+		flat = func(y *X) []*X {
+			y = strip(y)
+			if y.Op == "builtin" && y.Name == "append" && len(y.Args) == 2 {
+				if es := variadicElems(c, y.Args[1]); es != nil {
+					return nil // appends single bytes, not a byte string
+				}
+				head := flat(y.Args[0])
+				if head == nil {
+					return nil
+				}
+				return append(head, y.Args[1])
+			}
+			return []*X{y}
+		}
+		return flat(b["in"])
+	}
+	if b, ok := Match(c.RoleCall("dhash.multi", Any(), Bind("ps")), x); ok {
+		return variadicElems(c, b["ps"])
+	}
+	return nil
+}
+
 func variadicElems(c *Ctx, sliceX *X) []*X {
 	sl, ok := sliceX.V.(*ssa.Slice)
 	if !ok {
@@ -495,6 +539,11 @@ func c12ValueKey(c *Ctx) {
 		ok := false
 		for _, cs := range c.Calls(sm.SSA, Call("go-multihash.Encode")) {
 			_, d := Match(Call("dhash.SHA256", Op("builtin", "append", Op("global", "dhash.secondHashPrefix"), Op("param", sm.SSA.Params[0].Name()))), cs.X.Args[0])
+			if ps := sha256Pieces(c, cs.X.Args[0]); !d && len(ps) == 2 {
+				_, p0 := Match(Op("global", "dhash.secondHashPrefix"), ps[0])
+				_, p1 := Match(Op("param", sm.SSA.Params[0].Name()), ps[1])
+				d = p0 && p1
+			}
 			code, _ := c.ConstString("github.com/multiformats/go-multihash", "DBL_SHA2_256")
 			ok = d && cs.X.Args[1].Op == "const" && cs.X.Args[1].Name == code
 		}
